@@ -117,4 +117,32 @@ theorem lexAll_tokens : ∀ (fuel : Nat) (st : LexState) (acc toks : List Token)
       · exact ⟨fun ha => (hreal ha).2.2.2.2.2, fun ha => ⟨(hauto ha).2.1, (hauto ha).2.2.1⟩⟩
       · exact hall x hx
 
+/-- a segmentation is ordered and non-overlapping: offsets strictly increase, each token ends before the next starts -/
+theorem segmented_ordered (cm : Bool) (text : List Char) :
+    ∀ (pos : Nat) (l : List (Nat × List Char)), Segmented cm text pos l →
+      (∀ x ∈ l, pos ≤ x.1) ∧ l.Pairwise (fun a b => a.1 < b.1 ∧ a.1 + a.2.length ≤ b.1) := by
+  intro pos l
+  induction l generalizing pos with
+  | nil => intro _; simp
+  | cons pv rest ih =>
+    obtain ⟨p, v⟩ := pv
+    intro h
+    obtain ⟨hp, _, hne, _, _, hrest⟩ := h
+    obtain ⟨h1, h2⟩ := ih _ hrest
+    have hpos : 0 < v.length := by cases v with
+      | nil => exact absurd rfl hne
+      | cons => simp
+    refine ⟨?_, ?_⟩
+    · intro x hx
+      simp at hx
+      rcases hx with rfl | hx
+      · exact hp
+      · have := h1 x hx; omega
+    · simp only [List.pairwise_cons]
+      refine ⟨?_, h2⟩
+      intro x hx
+      have := h1 x hx
+      constructor <;> omega
+
+
 end CalmVerif.Proofs.LexerSegm
